@@ -240,3 +240,69 @@ Fixpoint items_of (rs : list robs) : list item :=
   | RItem x :: t => x :: items_of t
   | _ :: t => items_of t
   end.
+
+(* like [legal], until the first error whose code is one of the (unretryable) fault codes C *)
+Fixpoint legal_until (C : list Z) (l : list item) (rs : list robs) : Prop :=
+  match rs with
+  | [] => True
+  | RItem x :: t => match l with y :: l' => x = y /\ legal_until C l' t | [] => False end
+  | REnd :: t => l = [] /\ legal_until C [] t
+  | RErr e :: t => In e C \/ legal_until C l t
+  | _ :: _ => False
+  end.
+
+(* fault codes and the fault-free version of a pipeline: scripts continue with k instead of
+   their first fatal error, callbacks never fail *)
+Fixpoint cut_with (k : list sevent) (evs : list sevent) : list sevent :=
+  match evs with
+  | [] => []
+  | EvFatal _ :: _ => k
+  | e :: t => e :: cut_with k t
+  end.
+Fixpoint fatal_codes (evs : list sevent) : list Z :=
+  match evs with
+  | [] => []
+  | EvFatal e :: t => e :: fatal_codes t
+  | _ :: t => fatal_codes t
+  end.
+Definition cb_codes (fl : failing) : list Z :=
+  match fail_at fl with Some _ => [fail_err fl] | None => [] end.
+
+Definition src_scrub (k : list sevent) (s : source) : source :=
+  match s with SScript evs => SScript (cut_with k evs) | _ => s end.
+Definition src_codes (s : source) : list Z :=
+  match s with SScript evs => fatal_codes evs | _ => [] end.
+
+Fixpoint pz_scrub (k : list sevent) (p : pz) : pz :=
+  match p with
+  | ZSrc id s => ZSrc id (src_scrub k s)
+  | ZPeek p => ZPeek (pz_scrub k p)
+  | ZCompact r p => ZCompact r (pz_scrub k p)
+  | ZFilter f _ p => ZFilter f never_fails (pz_scrub k p)
+  | ZFirst n p => ZFirst n (pz_scrub k p)
+  | ZFlatten ps => ZFlatten (map (pz_scrub k) ps)
+  | ZJoin ps => ZJoin (map (pz_scrub k) ps)
+  | ZMap f _ p => ZMap f never_fails (pz_scrub k p)
+  | ZWhile f _ p => ZWhile f never_fails (pz_scrub k p)
+  | ZFlattenSlices q => ZFlattenSlices (pl_scrub k q)
+  end
+with pl_scrub (k : list sevent) (q : pl) : pl :=
+  match q with
+  | LChunk n p => LChunk n (pz_scrub k p)
+  | LRuns r t p => LRuns r t (pz_scrub k p)
+  end.
+Definition pipe_scrub (k : list sevent) (p : pz + pl) : pz + pl :=
+  match p with inl p => inl (pz_scrub k p) | inr q => inr (pl_scrub k q) end.
+
+Fixpoint pz_codes (p : pz) : list Z :=
+  match p with
+  | ZSrc _ s => src_codes s
+  | ZPeek p | ZCompact _ p | ZFirst _ p => pz_codes p
+  | ZFilter _ fl p | ZMap _ fl p | ZWhile _ fl p => cb_codes fl ++ pz_codes p
+  | ZFlatten ps | ZJoin ps => flat_map pz_codes ps
+  | ZFlattenSlices q => pl_codes q
+  end
+with pl_codes (q : pl) : list Z :=
+  match q with LChunk _ p | LRuns _ _ p => pz_codes p end.
+Definition pipe_codes (p : pz + pl) : list Z :=
+  match p with inl p => pz_codes p | inr q => pl_codes q end.
